@@ -600,6 +600,13 @@ Proof.
   rewrite He. apply Z.mod_pos_bound, pow2_pos; lia.
 Qed.
 
+(* ubig() is big() on every non-negative value *)
+Lemma ubig_nonneg x : 0 <= big x -> ubig x = big x.
+Proof.
+  unfold ubig, big. intros H. assert (E : (mval x <? 0) = false) by (apply Z.ltb_ge; lia).
+  rewrite E, andb_false_r. reflexivity.
+Qed.
+
 Definition big_binop (op : binop) : bool :=
   match op with OBand | OBor | OBxor | OBclr | OMul | OAdd | OSub => true | _ => false end.
 
@@ -611,7 +618,10 @@ Theorem fold_big_binop op k n ml mr x y A B :
   exists c, evalConst op (CI (mkT k n ml) x) (CI (mkT k n mr) y) = Ok c /\
     good c k n (snd (circuit_sem op k n A B)).
 Proof.
-  intros Hop Hn Hx Hy HbA HiA HA HbB HiB HB Hpan. unfold evalConst, resultTypeCC.
+  intros Hop Hn Hx Hy HbA HiA HA HbB HiB HB Hpan.
+  assert (HuA : ubig x = A) by (rewrite ubig_nonneg; lia).
+  assert (HuB : ubig y = B) by (rewrite ubig_nonneg; lia).
+  unfold evalConst, resultTypeCC.
   assert (Hs : isSmall (mkM n 0) = false) by (apply Z.leb_gt; simpl; lia).
   assert (Hmx : Z.max n n = n) by lia.
   assert (Hmin : Z.min n (n + 1) = n) by lia.
@@ -619,7 +629,7 @@ Proof.
   assert (Hw : Z.max (Z.max (mbits x) (mbits y)) n = n) by lia.
   destruct op; try discriminate Hop; simpl; rewrite kind_eqb_refl; simpl; rewrite (mNew_ok n) by lia; simpl;
     unfold mAdd, mSub, mMul, mAnd, mOr, mXor, mAndNot, bigAddSub, bigMul; rewrite Hs; simpl mbits;
-    rewrite ?Hw, ?HbA, ?HbB, ?HiA, ?HiB;
+    rewrite ?Hw, ?HuA, ?HuB, ?HbA, ?HbB, ?HiA, ?HiB;
     try (assert (E : (Z.max (mbits x) (mbits y) + 1 <? n) = false) by (apply Z.ltb_ge; lia); rewrite E);
     simpl; (eexists; split; [reflexivity|]);
     unfold circuit_sem, instr_sem; simpl snd; rewrite ?Hmx, ?Hmin.
@@ -658,12 +668,14 @@ Theorem fold_big_lsh k n ml tr x y A cnt :
   exists c, evalConst OLsh (CI (mkT k n ml) x) (CI tr y) = Ok c /\
     good c k n (snd (circuit_sem OLsh k n A cnt)).
 Proof.
-  intros Hk Hkr Hn HbA HA0 Hcnt Hc0. unfold evalConst, resultTypeCC.
+  intros Hk Hkr Hn HbA HA0 Hcnt Hc0.
+  assert (HuA : ubig x = A) by (rewrite ubig_nonneg; lia).
+  unfold evalConst, resultTypeCC.
   assert (Hil : intlike k && intlike (tk tr) = true) by (destruct k, (tk tr); try congruence; reflexivity).
   assert (Hs : isSmall (mkM n 0) = false) by (apply Z.leb_gt; simpl; lia).
   assert (Hp : 0 < 2 ^ n) by (apply pow2_pos; lia).
   assert (Hpc : 0 < 2 ^ cnt) by (apply pow2_pos; lia).
-  simpl. rewrite Hil. simpl. rewrite (mNew_ok n) by lia. simpl. unfold mLsh. rewrite Hs, Hcnt, HbA. simpl mbits.
+  simpl. rewrite Hil. simpl. rewrite (mNew_ok n) by lia. simpl. unfold mLsh. rewrite Hs, Hcnt, HuA. simpl mbits.
   rewrite lsh_clear_nonneg by nia. simpl.
   eexists; split; [reflexivity|]. unfold circuit_sem, instr_sem. simpl snd.
   apply good_result_big; [lia|apply Z.mod_pos_bound; lia|lia].
@@ -675,7 +687,9 @@ Theorem fold_big_rsh k n ml tr x y A cnt :
   exists c, evalConst ORsh (CI (mkT k n ml) x) (CI tr y) = Ok c /\
     good c k n (snd (circuit_sem ORsh k n A cnt)).
 Proof.
-  intros Hk Hkr Hn HbA HA Hxb Hnb Hcnt Hc0. unfold evalConst, resultTypeCC.
+  intros Hk Hkr Hn HbA HA Hxb Hnb Hcnt Hc0.
+  assert (HuA : ubig x = A) by (rewrite ubig_nonneg; lia).
+  unfold evalConst, resultTypeCC.
   assert (Hil : intlike k && intlike (tk tr) = true) by (destruct k, (tk tr); try congruence; reflexivity).
   assert (Hs : isSmall (mkM n 0) = false) by (apply Z.leb_gt; simpl; lia).
   assert (Hp : 0 < 2 ^ n) by (apply pow2_pos; lia).
@@ -683,7 +697,7 @@ Proof.
   assert (HAn : A < 2 ^ n) by (pose proof (pow2_le (mbits x) n ltac:(lia)); lia).
   assert (Hsh : Z.shiftr A cnt = A / 2 ^ cnt) by (apply Z.shiftr_div_pow2; lia).
   assert (Hq : 0 <= A / 2 ^ cnt <= A) by (split; [apply Z.div_pos; lia|apply Z.div_le_upper_bound; nia]).
-  simpl. rewrite Hil. simpl. rewrite (mNew_ok n) by lia. simpl. unfold mRsh. rewrite Hs, Hcnt, HbA. simpl.
+  simpl. rewrite Hil. simpl. rewrite (mNew_ok n) by lia. simpl. unfold mRsh. rewrite Hs, Hcnt, HuA. simpl.
   eexists; split; [reflexivity|]. unfold circuit_sem, instr_sem. simpl snd.
   assert (Hsg : (match k with KInt => sgn_at n A | _ => A end) = A).
   { destruct k; try congruence. simpl in Hnb. unfold sgn_at.
